@@ -63,3 +63,156 @@ end
 end Bksf
 end Model
 end OFV
+
+/-! ### the assembled transform: `bravyi_kitaev_fast_edge_matrix`, `_one_body`, `_two_body`,
+`bravyi_kitaev_fast_interaction_op`, `number_operator` -/
+
+namespace OFV
+namespace Model
+namespace Bksf
+
+/-- `len(set([p, q, r, s]))` -/
+def nDistinct4 (p q r s : Nat) : Nat := ([p, q, r, s].eraseDups).length
+
+/-- the selection `continue`s shared by the edge-matrix loop and the main loop:
+`if [p,q,r,s] != [s,r,q,p]: if len(set) == 4: if min(r,s) < min(p,q): continue`.  Returns `true` when skipped. -/
+def skip4 (p q r s : Nat) : Bool :=
+  !(p == s && q == r) && nDistinct4 p q r s == 4 && decide (min r s < min p q)
+
+/-- entries `edge_matrix[row, col] = True` written by `bravyi_kitaev_fast_edge_matrix` (before the transpose), in
+program order; `T1 p q = one_body[p, q]`, `T2 p q r s = two_body[p, q, r, s]` -/
+def edgeMatrixWrites (N : Nat) (T1 : Nat → Nat → GQ) (T2 : Nat → Nat → Nat → Nat → GQ) : List (Nat × Nat) :=
+  (List.range N).flatMap fun p => (List.range N).flatMap fun q =>
+    (if T1 p q != 0 && decide (q ≤ p) then [(p, q)] else [])
+    ++ ((List.range N).flatMap fun r => (List.range N).flatMap fun s =>
+      let c := T2 p q r s
+      if c == 0 || p == q || r == s then [] else
+      let nd := nDistinct4 p q r s
+      if !(p == s && q == r) && ((nd == 4 && decide (min r s < min p q)) || (nd != 4 && p != r && decide (q < p))) then []
+      else if nd == 4 then
+        (if decide (q ≤ p) then [(p, q), (max r s, min r s)] else [])
+      else if nd == 3 then
+        (if p == r then [(max q s, min q s)]
+         else if p == s then [(max q r, min q r)]
+         else if q == r then [(max p s, min p s)]
+         else if q == s then [(max p r, min p r)]
+         else [])
+      else [])
+
+/-- `numpy.array(numpy.nonzero(numpy.triu(edge_matrix) - numpy.diag(numpy.diag(edge_matrix))))` of the transposed
+matrix: the columns `(a, b)`, `a < b`, in row-major order -/
+def edgeIndices (N : Nat) (T1 : Nat → Nat → GQ) (T2 : Nat → Nat → Nat → Nat → GQ) : Edges :=
+  let W := edgeMatrixWrites N T1 T2
+  (List.range N).flatMap fun a => ((List.range N).filter fun b => decide (a < b) && W.contains (b, a)).map fun b => (a, b)
+
+section
+variable (tol : Rat)
+
+def one : Op := mk .qubit [] 1
+def halfQ : GQ := ⟨mkRat 1 2, 0⟩
+def quarterQ : GQ := ⟨mkRat 1 4, 0⟩
+def eighthQ : GQ := ⟨mkRat 1 8, 0⟩
+
+/-- `x + y` (`__add__`: copy, then `+=`) -/
+def addOp (x y : Op) : Op := iadd tol x y
+/-- `x - y` -/
+def subOp (x y : Op) : Op := isub tol x y
+
+/-- `_one_body(edge_matrix_indices, p, q)`; `none` when a needed edge operator does not exist -/
+def oneBody (E : Edges) (p q : Nat) : Option Op :=
+  if p != q then
+    let a := min p q
+    let b := max p q
+    match edgeA tol E a b with
+    | none => none
+    | some A =>
+      let Ba := edgeB tol E a
+      let Bb := edgeB tol E b
+      let inner := addOp tol (mulOp .qubit A Bb) (mulOp .qubit Ba A)
+      some (iadd tol [] (smul (⟨0, -(mkRat 1 2)⟩ : GQ) inner))
+  else
+    some (iadd tol [] (smul halfQ (subOp tol one (edgeB tol E p))))
+
+/-- `(A_xy * B_y + B_x * A_xy)` -/
+def hopPart (E : Edges) (x y : Nat) : Option Op :=
+  match edgeA tol E x y with
+  | none => none
+  | some A => some (addOp tol (mulOp .qubit A (edgeB tol E y)) (mulOp .qubit (edgeB tol E x) A))
+
+/-- `_two_body(edge_matrix_indices, p, q, r, s)` -/
+def twoBody (E : Edges) (p q r s : Nat) : Option Op :=
+  let nd := nDistinct4 p q r s
+  let B := edgeB tol E
+  if nd == 4 then
+    match edgeA tol E p q, edgeA tol E r s with
+    | some Apq, some Ars =>
+      let poly0 := smul (-1) one
+      let poly1 := subOp tol poly0 (mulOp .qubit (B p) (B q))
+      let poly2 := addOp tol poly1 (mulOp .qubit (B p) (B r))
+      let poly3 := addOp tol poly2 (mulOp .qubit (B p) (B s))
+      let poly4 := addOp tol poly3 (mulOp .qubit (B q) (B r))
+      let poly5 := addOp tol poly4 (mulOp .qubit (B q) (B s))
+      let poly6 := subOp tol poly5 (mulOp .qubit (B r) (B s))
+      let poly7 := subOp tol poly6 (mulOp .qubit (mulOp .qubit (mulOp .qubit (B p) (B q)) (B r)) (B s))
+      some (iadd tol [] (mulOp .qubit (mulOp .qubit (smul eighthQ Apq) Ars) poly7))
+    | _, _ => none
+  else if nd == 3 then
+    let build (x y z : Nat) (ph : GQ) : Option Op :=
+      match hopPart tol E x y with
+      | none => none
+      | some h => some (iadd tol [] (smul quarterQ (mulOp .qubit (smul ph h) (subOp tol one (B z)))))
+    if p == r then build q s p GQ.I
+    else if p == s then build q r p (-GQ.I)
+    else if q == r then build p s q (-GQ.I)
+    else if q == s then build p r q GQ.I
+    else some []
+  else if nd == 2 then
+    let prod := fun (x : Op) => smul quarterQ (mulOp .qubit x (subOp tol one (B q)))
+    if p == s then some (iadd tol [] (prod (subOp tol one (B p))))
+    else some (iadd tol [] (prod (smul (-1) (subOp tol one (B p)))))
+  else some []
+
+/-- `bravyi_kitaev_fast_interaction_op(iop)` for an `N`-orbital operator -/
+def bksfOp (N : Nat) (const : GQ) (T1 : Nat → Nat → GQ) (T2 : Nat → Nat → Nat → Nat → GQ) : Option Op :=
+  let E := edgeIndices N T1 T2
+  (List.range N).foldl (fun acc p => (List.range N).foldl (fun acc q =>
+    let acc : Option Op := match acc with
+      | none => none
+      | some op =>
+        if T1 p q != 0 && decide (q ≤ p) then
+          match oneBody tol E p q with
+          | none => none
+          | some t => some (iadd tol op (smul (T1 p q) t))
+        else some op
+    (List.range N).foldl (fun acc r => (List.range N).foldl (fun acc s =>
+      match acc with
+      | none => none
+      | some op =>
+        let c := T2 p q r s
+        if c == 0 || p == q || r == s then some op else
+        let nd := nDistinct4 p q r s
+        let same := p == s && q == r
+        if !same && nd == 4 && decide (min r s < min p q) then some op
+        else if !same && nd != 4 && nd == 3 then
+          match twoBody tol E p q r s with
+          | none => none
+          | some t => some (iadd tol op (smul (halfQ * c) t))
+        else if !same && nd != 4 && nd != 3 && p != r && decide (q < p) then some op
+        else
+          match twoBody tol E p q r s with
+          | none => none
+          | some t => some (iadd tol op (smul c t))) acc) acc) acc) (some (mk .qubit [] const))
+
+/-- `number_operator(iop, mode_number)`; `mode = none` sums over all modes -/
+def numberOp (N : Nat) (T1 : Nat → Nat → GQ) (T2 : Nat → Nat → Nat → Nat → GQ) (mode : Option Nat) : Op :=
+  let E := edgeIndices N T1 T2
+  let term := fun i => smul halfQ (subOp tol one (edgeB tol E i))
+  match mode with
+  | none => (List.range N).foldl (fun acc i => iadd tol acc (term i)) []
+  | some i => iadd tol [] (term i)
+
+end
+
+end Bksf
+end Model
+end OFV
